@@ -301,13 +301,23 @@ def _irfft_elem(x, w, tr, nsx, nsw, j):
     return SReal(f(aid, larr._int_term(j)))
 
 
-def case_convolve_values(ctx, nsx, nsw, mode, two_d):
+class _IntSignal(arrays.SymArray):
+    """a signal held as integers (raw samples, counts, masks): `dtype` answers int64"""
+
+    @property
+    def dtype(self):
+        return np.dtype(np.int64)
+
+
+def case_convolve_values(ctx, nsx, nsw, mode, two_d, int_signal=False):
     import ibldsp.fourier as f
-    xs = [ctx.real(f"x{i}") for i in range(nsx)]
+    xs = [ctx.real(f"x{i}") for i in range(nsx)] if not int_signal else [ctx.int(f"x{i}", -1000, 1000) for i in range(nsx)]
     ws = [ctx.real(f"w{i}") for i in range(nsw)]
     if two_d:
         xs2 = [ctx.real(f"y{i}") for i in range(nsx)]
         x = arrays.mk(xs + xs2, shape=(2, nsx), tag=np.dtype(float))
+    elif int_signal:
+        x = arrays.mk(xs, tag=np.dtype(np.int64)).view(_IntSignal)
     else:
         x = arrays.mk(xs, tag=np.dtype(float))
     w = arrays.mk(ws, tag=np.dtype(float))
@@ -410,6 +420,9 @@ def cases(tier):
     for (a, bb) in b["conv_value_pairs"]:
         for mode in ("full", "same"):
             cs.append(Case(f"convolve_values_{a}_{bb}_{mode}", "case_convolve_values", {"nsx": a, "nsw": bb, "mode": mode, "two_d": a <= 4}))
+    # integer-typed signal with a real kernel: the result is the real-valued convolution, not its truncation
+    for mode in ("full", "same"):
+        cs.append(Case(f"convolve_values_int_signal_4_3_{mode}", "case_convolve_values", {"nsx": 4, "nsw": 3, "mode": mode, "two_d": False, "int_signal": True}))
     for (p, q) in ((1, 2), (2, 5), (0, 3)) if tier == "thorough" else ((1, 2),):
         cs.append(Case(f"filters_{p}_{q}", "case_filters", {"b0n": p, "b1n": q}))
     return cs
@@ -497,6 +510,20 @@ else:
 print(X.shape, R.shape, E.shape)
 if E.shape != X.shape or not np.allclose(E, X): reproduced(f'fexpand(freduce(X), {{n}}) != X')
 if Bk.shape != Y.shape or not np.allclose(Bk, Y): reproduced(f'freduce(fexpand(Y, {{n}})) != Y')
+not_reproduced()
+"""
+    if case.startswith("convolve_values_int_signal"):
+        nsx, nsw, mode = params["nsx"], params["nsw"], params["mode"]
+        xs = [int(str(m[f"x{i}"])) for i in range(nsx)]
+        ws = [float(Fraction(str(m[f"w{i}"]))) for i in range(nsw)]
+        return f"""
+import ibldsp.fourier as f
+x = np.array({xs}, dtype=np.int64); w = np.array({ws}); mode = {mode!r}
+c = f.convolve(x, w, mode=mode)
+ref = np.convolve(x.astype(float), w) if mode == 'full' else np.convolve(x.astype(float), w, mode='same')
+got = c[:-1] if mode == 'full' else c
+print(x, w, got, ref)
+if got.shape != ref.shape or not np.allclose(got, ref, atol=1e-9): reproduced(f'FFT convolution of an integer signal {{x.tolist()}} with {{w.tolist()}} gives {{np.asarray(got).tolist()}}, direct convolution {{ref.tolist()}}')
 not_reproduced()
 """
     if case.startswith("convolve"):
